@@ -178,6 +178,14 @@ example : (Net.init 4 [(2, 1), (1, 0), (3, 1)]).nbhd 1 true 1 = [2, 0, 3, 1] := 
 example : 3 ∈ ball (adjOf [(2, 1), (1, 0), (3, 1)]) 2 0 := by decide
 example : (init 3 2 false true 11).rawCells [(-1, -1), (0, 0)] = .ok [(2, 1), (0, 0)] := by rfl
 example : (init 3 2 false true 11).rawCells [(0, 0), (3, 0)] = .error .index := by rfl
+/-- MultiGrid with several agents on the centre cell: with `include_center` the cell mates (and the asking agent itself)
+    are returned, in the cell's list order at the centre's place in the neighbourhood; without it none of them -/
+example : (match nbhdCompute ⟨3, 3, false⟩ ⟨(1, 1), false, true, 1⟩ with
+    | .ok l => cellsContents (run (init 3 3 false true 18) [.place 0 (1, 1), .place 1 (1, 1), .place 2 (0, 1), .place 3 (1, 1)]) l
+    | .error _ => []) = [2, 0, 1, 3] := by decide
+example : (match nbhdCompute ⟨3, 3, false⟩ ⟨(1, 1), false, false, 1⟩ with
+    | .ok l => cellsContents (run (init 3 3 false true 18) [.place 0 (1, 1), .place 1 (1, 1), .place 2 (0, 1), .place 3 (1, 1)]) l
+    | .error _ => []) = [2] := by decide
 /-- a centre outside a bounded hex grid with `include_center`: the centre is in the list and `get_neighbors` aliases it -/
 example : hexCompute ⟨3, 3, false⟩ (-1, 0) true 1 = [(-1, 0), (0, 0)] := by decide
 example : hexNeighbors (run (init 3 3 false true 18) [.place 0 (2, 0)]) [(-1, 0), (0, 0)] = .ok [0] := by rfl
